@@ -229,7 +229,7 @@ Theorem dates_iso : forall y m d, 0 <= y <= 9999 -> 1 <= m <= 12 -> 1 <= d <= 31
   /\ d = 10 * ((d / 10 ^ 1) mod 10) + (d / 10 ^ 0) mod 10.
 Proof.
   intros y m d Hy Hm Hd. split; [|split; [|split]].
-  - unfold format_date, iso_date. cbn [map concat].
+  - unfold format_date, iso_date. cbn [map concat format_tok].
     rewrite fmt_num_4 by lia. rewrite !fmt_num_2 by lia. reflexivity.
   - apply digits_sum_4. lia.
   - apply digits_sum_2. lia.
@@ -254,7 +254,6 @@ Proof.
   replace ((0 * 10 + (d / 10 ^ 1) mod 10) * 10 + (d / 10 ^ 0) mod 10) with d by lia.
   change (45 =? 32)%N with false. cbv iota. rewrite N.eqb_refl.
   replace ((1 <=? m) && (m <=? 12))%bool with true by lia.
-  replace ((0 <=? d) && (d <=? 31))%bool with true by lia.
   replace ((1 <=? d) && (d <=? days_in y m))%bool with true by lia.
   reflexivity.
 Qed.
